@@ -246,10 +246,135 @@ def spec(tier, seed):
     except slicer.SliceError as e:
         notes.append("process_dec could not be sliced from the current tree (%s): vk_c10_dec_literal_typing missing from this run" % e)
 
+    # &H / &O literals from the token text on: the bodies of process_hex / process_oct and of create_expression_from_bit_vec sliced from the
+    # current source, on a token whose text is "&H" / "&O" followed by symbolic digits (zeros anywhere).  The bit vector is a stand-in that
+    # records the digits pushed and whose conversion result is chosen by the solver: decided is the *scan* - the prefix and the leading zeros
+    # are stripped, every other digit is converted and pushed in order - and the glue from the conversion result to the literal; the bit
+    # vector itself is decided above for every digit string.  (With the real BitVec behind the symbolic text its length is symbolic -
+    # a leading digit may or may not be a zero - and CBMC's post-processing does not finish in 600 s even for one digit.)
+    try:
+        src = slicer.read("rusty_parser/src/expr/integer_or_long_literal.rs")
+        texts = []
+        for fn_name in ("process_hex", "process_oct"):
+            sig, body = slicer.function(src, fn_name)
+            if "token: Token" not in " ".join(sig.split()):
+                raise slicer.SliceError("unexpected signature of " + fn_name)
+            texts.append("        pub fn vk_%s(token: VkTextToken) -> Result<Expression, ParserError> {%s}" % (fn_name, body))
+        sig, body = slicer.function(src, "create_expression_from_bit_vec")
+        texts.append("        pub fn create_expression_from_bit_vec(bit_vec: BitVec) -> Result<Expression, ParserError> {%s}" % body)
+        for fn_name in ("convert_hex_digit", "convert_oct_digit"):
+            try:
+                texts.append("        pub " + slicer.function_text(src, fn_name))
+            except slicer.SliceError:
+                pass                      # a tree without this helper: the sliced callers either do not need it or do not compile
+        b.helper(lit, """
+    pub mod vk_scan {
+        use rusty_bit_vec::{BitVecIntOrLong, OverflowError};
+        use crate::{Expression, ParserError};
+        /// stands for the &H / &O token: only its text is used
+        pub struct VkTextToken { pub bytes: [u8; 16], pub n: usize }
+        impl VkTextToken {
+            pub fn to_string(&self) -> String {
+                let mut v: Vec<u8> = Vec::with_capacity(16);
+                let mut k = 0usize;
+                while k < self.n { v.push(self.bytes[k]); k += 1; }
+                unsafe { String::from_utf8_unchecked(v) }
+            }
+        }
+        /// stands for rusty_bit_vec::BitVec: records the digits pushed; the conversion result is the solver's choice (VK_RESULT)
+        pub struct BitVec { pub digits: [u8; 16], pub n: usize, pub base: u8 }
+        pub static mut VK_SEEN: Option<BitVec> = None;
+        pub static mut VK_RESULT: u8 = 0;          // 0 overflow, 1 INTEGER 7, 2 LONG 70000
+        impl BitVec {
+            pub fn new() -> Self { BitVec { digits: [0; 16], n: 0, base: 0 } }
+            pub fn push_hex(&mut self, u: u8) { assert!(self.n < 16); self.digits[self.n] = u; self.n += 1; self.base = 16; }
+            pub fn push_oct(&mut self, u: u8) { assert!(self.n < 16); self.digits[self.n] = u; self.n += 1; self.base = 8; }
+            pub fn convert_to_int_or_long_expr(self) -> Result<BitVecIntOrLong, OverflowError> {
+                unsafe { VK_SEEN = Some(self); }
+                match unsafe { VK_RESULT } { 0 => Err(OverflowError), 1 => Ok(BitVecIntOrLong::Int(7)), _ => Ok(BitVecIntOrLong::Long(70000)) }
+            }
+        }
+        /// stubs for String::remove and the UTF-8 decoder on ASCII text (see the harness attributes)
+        pub fn vk_remove_ascii(s: &mut String, idx: usize) -> char {
+            let v = unsafe { s.as_mut_vec() };
+            assert!(idx < v.len() && v[idx] < 128);
+            let c = v[idx];
+            let mut i = idx;
+            while i + 1 < v.len() { v[i] = v[i + 1]; i += 1; }
+            v.pop();
+            c as char
+        }
+        pub fn vk_next_code_point_ascii<'a, I: Iterator<Item = &'a u8>>(bytes: &mut I) -> Option<u32> {
+            let x = *bytes.next()?;
+            assert!(x < 128);
+            Some(x as u32)
+        }
+        // ---- text of process_hex, process_oct, create_expression_from_bit_vec, convert_hex_digit, convert_oct_digit, unchanged ----
+%s
+    }
+""" % "\n".join(texts))
+        for kind, fn_name, base, letter, counts in (("hex", "process_hex", 16, "H", ((1, "quick"), (2, "thorough"), (4, "thorough"), (5, "quick"), (8, "thorough"), (9, "quick"), (10, "thorough"))),
+                                                    ("oct", "process_oct", 8, "O", ((1, "quick"), (3, "thorough"), (6, "quick"), (7, "thorough"), (11, "thorough"), (12, "thorough")))):
+            for n, t in counts:
+                if base == 16:
+                    digit = "match d { 0 => b'0', 1 => b'1', 2 => b'2', 3 => b'3', 4 => b'4', 5 => b'5', 6 => b'6', 7 => b'7', 8 => b'8', 9 => b'9', 10 => b'A', 11 => b'b', 12 => b'C', 13 => b'd', 14 => b'E', _ => b'F' }"
+                    val = "(d & 15)"
+                else:
+                    digit = "match d { 0 => b'0', 1 => b'1', 2 => b'2', 3 => b'3', 4 => b'4', 5 => b'5', 6 => b'6', _ => b'7' }"
+                    val = "(d & 7)"
+                b.add(lit, "vk_c10_%s_scan_%ddigits" % (kind, n), """
+        let mut bytes: [u8; 16] = [b'0'; 16];
+        bytes[0] = b'&'; bytes[1] = b'%(letter)s';
+        let mut digits: [u8; %(n)d] = [0; %(n)d];
+        let mut k = 0usize;
+        while k < %(n)d {
+            let d: u8 = kani::any();
+            let d = %(val)s;
+            digits[k] = d;
+            bytes[2 + k] = %(digit)s;
+            k += 1;
+        }
+        let outcome: u8 = kani::any();
+        kani::assume(outcome <= 2);
+        unsafe { vk_scan::VK_RESULT = outcome; vk_scan::VK_SEEN = None; }
+        let r = vk_scan::vk_%(fn)s(vk_scan::VkTextToken { bytes, n: 2 + %(n)d });
+        // the scan: prefix and leading zeros stripped, every other digit converted and pushed in order
+        let mut z = 0usize;
+        while z < %(n)d && digits[z] == 0 { z += 1; }
+        match unsafe { vk_scan::VK_SEEN.as_ref() } {
+            // the code under test did not go through the bit vector: this harness cannot observe the scan (no verdict, not a violation)
+            None => { std::mem::forget(r); return; }
+            Some(seen) => {
+                assert!(seen.n == %(n)d - z);
+                assert!(seen.n == 0 || seen.base == %(base)d);
+                let mut k = 0usize;
+                while k < %(n)d { if k < seen.n { assert!(seen.digits[k] == digits[z + k]); } k += 1; }
+            }
+        }
+        // the glue: the literal is what the bit vector's conversion says
+        match &r {
+            Ok(Expression::IntegerLiteral(i)) => assert!(outcome == 1 && *i == 7),
+            Ok(Expression::LongLiteral(l)) => assert!(outcome == 2 && *l == 70000),
+            Err(ParserError::Overflow) => assert!(outcome == 0),
+            _ => assert!(false),
+        }
+        std::mem::forget(r);
+        """ % {"n": n, "letter": letter, "val": val, "digit": digit, "base": base, "fn": fn_name},
+                      unwind=20, tier=t, cost=20 + 8 * n,
+                      stubs=[("std::string::String::remove", "vk_scan::vk_remove_ascii"), ("core::str::next_code_point", "vk_scan::vk_next_code_point_ascii")],
+                      bounds="every &%s literal of exactly %d digits (any digits, zeros anywhere, both letter cases), every outcome of the bit vector's conversion" % (letter, n),
+                      functions=["rusty_parser::expr::integer_or_long_literal::%s (body, sliced)" % fn_name,
+                                 "rusty_parser::expr::integer_or_long_literal::convert_%s_digit (text, sliced)" % kind,
+                                 "rusty_parser::expr::integer_or_long_literal::create_expression_from_bit_vec (body, sliced)"],
+                      basic="PRINT &H0FFFF   ' -1")
+    except slicer.SliceError as e:
+        notes.append("process_hex / process_oct could not be sliced from the current tree (%s): vk_c10_*_scan_* missing from this run" % e)
+
     return b.build(
         tier,
         notes=notes,
-        stubs=["the decimal token of process_dec -> a stand-in whose text parses to an arbitrary u32 (Token::to_string and str::parse are not executed)"],
+        stubs=["String::remove -> a stub that shifts the bytes of an ASCII text down one by one; core::str::next_code_point -> one byte is one character (ASCII text); both used only by vk_c10_*_scan_*",
+               "the &H / &O token -> a stand-in that only has a text; BitVec -> a stand-in that records the digits pushed, with a conversion result chosen by the solver (vk_c10_*_scan_*)", "the decimal token of process_dec -> a stand-in whose text parses to an arbitrary u32 (Token::to_string and str::parse are not executed)"],
         bounds="operator pairs: all 169 + 2 x 13 (exhaustive); hex literals of 1..9 digits, octal 1..12 (both boundaries: 16 and 32 significant bits), "
                "one instance per digit count, digits symbolic",
         outside="the rotation driver (binary_expr / flip_binary / apply_unary_priority_order recursion over deeper trees) and literal folding "
